@@ -230,6 +230,10 @@ def stackingRoute (k : Key) (n : Nat) : Except Err (Nat × Key) :=
     if i < n then .ok (i, sliceFrom k (stackingSubkeyFrom stackingD si.length s0.length))
     else .error .index
 
+/-- one iteration of the routing loop of `SkBaseTransformStacking.set_params` -/
+def stackStep (n : Nat) (g : List (Sel × KW)) (kv : Key × PVal) : Except Err (List (Sel × KW)) :=
+  (stackingRoute kv.1 n).map (fun r => addTo (.idx kModels r.1) r.2 kv.2 g)
+
 /-- `SkBaseTransformStacking.set_params` up to the nested calls -/
 def planStacking (kw : KW) (kvs : KW) : Except Err Plan := do
   let kw1 := match kvs.lookup kModels with
@@ -247,20 +251,22 @@ def planStacking (kw : KW) (kvs : KW) : Except Err Plan := do
   let n ← match kw2.lookup kModels with
     | some (.ests l) => .ok l.length
     | _ => .error .type
-  let groups ← nested.foldlM (fun (g : List (Sel × KW)) kv =>
-      (stackingRoute kv.1 n).map (fun r => addTo (.idx kModels r.1) r.2 kv.2 g)) []
+  let groups ← nested.foldlM (stackStep n) []
   .ok { kw := kw2, groups := groups }
+
+/-- one iteration of the loop of `ClassifierAfterKMeans.set_params`: (plan, parameters for clus, parameters for estimator) -/
+def cakStep (names : List Key) (pl : Plan × KW × KW) (kv : Key × PVal) : Except Err (Plan × KW × KW) :=
+  if cakShallowKeys.contains kv.1 && names.contains kv.1 then
+    .ok ({ pl.1 with kw := replaceKey kv.1 kv.2 pl.1.kw }, pl.2.1, pl.2.2)
+  else if startsWith kv.1 cakEstPrefixTest then
+    .ok (pl.1, pl.2.1, pl.2.2 ++ [(sliceFrom kv.1 cakEstSubkeyFrom, kv.2)])
+  else if startsWith kv.1 cakClusPrefixTest then
+    .ok (pl.1, pl.2.1 ++ [(sliceFrom kv.1 cakClusSubkeyFrom, kv.2)], pl.2.2)
+  else .error .value
 
 /-- `ClassifierAfterKMeans.set_params` up to the nested calls -/
 def planCak (kw : KW) (kvs : KW) : Except Err Plan := do
-  let direct := fun (k : Key) => cakShallowKeys.contains k && (keys kw).contains k
-  let pl ← kvs.foldlM (fun (pl : Plan × KW × KW) kv =>
-      if direct kv.1 then .ok ({ pl.1 with kw := replaceKey kv.1 kv.2 pl.1.kw }, pl.2.1, pl.2.2)
-      else if startsWith kv.1 cakEstPrefixTest then
-        .ok (pl.1, pl.2.1, pl.2.2 ++ [(sliceFrom kv.1 cakEstSubkeyFrom, kv.2)])
-      else if startsWith kv.1 cakClusPrefixTest then
-        .ok (pl.1, pl.2.1 ++ [(sliceFrom kv.1 cakClusSubkeyFrom, kv.2)], pl.2.2)
-      else .error .value) ({ kw := kw, groups := [] }, [], [])
+  let pl ← kvs.foldlM (cakStep (keys kw)) ({ kw := kw, groups := [] }, [], [])
   .ok { kw := pl.1.kw, groups := [(.slot kClus, pl.2.1), (.slot kEstimator, pl.2.2)] }
 
 /-- replace member `i` of a list -/
